@@ -8,6 +8,7 @@ import (
 	"strings"
 
 	"golang.org/x/tools/go/packages"
+	"golang.org/x/tools/go/ssa"
 	"golang.org/x/tools/go/types/typeutil"
 
 	"verif/sa/internal/core"
@@ -337,4 +338,73 @@ func unitBody(u flow.FuncUnit) *ast.BlockStmt {
 		return n.Body
 	}
 	return nil
+}
+
+// delegateTarget: fn does nothing but hand its receiver and parameters on to another method of the same receiver type and
+// return that call's results (ProveInsertion → ProveInsertionContext(context.Background(), params)); the target is
+// returned. Such wrappers are not analysed as provers/verifiers themselves — the target is.
+func delegateTarget(fn *ssa.Function) *ssa.Function {
+	if fn == nil || len(fn.Blocks) != 1 || fn.Signature.Recv() == nil || len(fn.Params) == 0 {
+		return nil
+	}
+	var target *ssa.Function
+	var call *ssa.Call
+	for _, in := range fn.Blocks[0].Instrs {
+		switch x := in.(type) {
+		case *ssa.Call:
+			callee := x.Common().StaticCallee()
+			if callee == nil {
+				return nil
+			}
+			if callee.Signature.Recv() != nil && len(x.Common().Args) > 0 && x.Common().Args[0] == ssa.Value(fn.Params[0]) &&
+				namedOf(callee.Signature.Recv().Type()) == namedOf(fn.Signature.Recv().Type()) && core.InRepo(pkgPathOf(callee)) {
+				if target != nil {
+					return nil
+				}
+				target, call = callee, x
+				continue
+			}
+			// argument constructors without effects on the request (context.Background(), option values)
+			if callee.Pkg == nil || core.InRepo(callee.Pkg.Pkg.Path()) {
+				return nil
+			}
+		case *ssa.Extract:
+			if x.Tuple != ssa.Value(call) {
+				return nil
+			}
+		case *ssa.Return:
+			for _, rv := range x.Results {
+				if e, ok := rv.(*ssa.Extract); ok && call != nil && e.Tuple == ssa.Value(call) {
+					continue
+				}
+				if call != nil && rv == ssa.Value(call) {
+					continue
+				}
+				return nil
+			}
+		case *ssa.MakeInterface, *ssa.ChangeType, *ssa.Convert, *ssa.DebugRef:
+		default:
+			return nil
+		}
+	}
+	return target
+}
+
+// requestParamIndex: the position (in the signature, receiver excluded) of the parameter carrying the request: a pointer
+// to (or value of) an in-repo struct type other than the receiver's.
+func requestParamIndex(fn *ssa.Function) int {
+	sig := fn.Signature
+	for i := 0; i < sig.Params().Len(); i++ {
+		n := namedOf(sig.Params().At(i).Type())
+		if n == nil || !inRepoObj(n.Obj()) {
+			continue
+		}
+		if sig.Recv() != nil && n == namedOf(sig.Recv().Type()) {
+			continue
+		}
+		if _, ok := n.Underlying().(*types.Struct); ok {
+			return i
+		}
+	}
+	return -1
 }
